@@ -137,10 +137,7 @@ CASES += [
 
 _RDM7 = "quantarhei/qm/propagators/rdmpropagator.py"
 CASES += [
-    {"name": "unwritten routine falls off its end (the repaired defect)", "kind": "mutant", "rule": "C07-L", "edits": [
-        (_RDM7, "        debug(\"(12)\")\n        raise Exception(\"Propagation with an external field and a relaxation\"\n                        +\" tensor in operator form is not implemented;\"\n                        +\" convert the tensor with convert_2_tensor()\")\n",
-                "        debug(\"(12)\")\n", 1)]},
-    {"name": "unwritten routine refuses with NotImplementedError", "kind": "twin", "edits": [
-        (_RDM7, "        debug(\"(12)\")\n        raise Exception(\"Propagation with an external field and a relaxation\"\n                        +\" tensor in operator form is not implemented;\"\n                        +\" convert the tensor with convert_2_tensor()\")\n",
-                "        debug(\"(12)\")\n        raise NotImplementedError(\"operator form with a field\")\n", 1)]},
+    {"name": "a further routine that falls off its end (not one of the four recorded findings)", "kind": "mutant", "rule": "C07-L", "edits": [
+        (_RDM7, "    def __propagate_short_exp_with_relaxation_field_oper(self, rhoi, L=4):",
+                "    def __propagate_short_exp_with_relaxation_field_oper2(self, rhoi, L=4):\n        debug(\"(12b)\")\n\n    def __propagate_short_exp_with_relaxation_field_oper(self, rhoi, L=4):", 1)]},
 ]
